@@ -113,7 +113,7 @@ void harness(void)
 		VERIF_ASSERT(ret == g_src_ret && par.state == g_src_ret &&
 			     strm.state == g_src_ret, "C15.tar.io_error_unchanged");
 	if (ret == 1)
-		VERIF_ASSERT(g_src_calls == 0 && par.state == 0,
+		VERIF_ASSERT(g_src_calls == 0 && par.state == 0 && off0 >= fsz,
 			     "C15.tar.eof_only_at_file_end");
 	if (g_src_calls == 1)
 		VERIF_ASSERT(off0 < fsz && !par.last_sparse && g_src_want <= want,
